@@ -1271,10 +1271,12 @@ class ClientRequest(ClientRequestBase):
 
         # enable chunked encoding if needed
         if not self.chunked and hdrs.CONTENT_LENGTH not in self.headers:
-            if (size := body.size) is not None:
-                self.headers[hdrs.CONTENT_LENGTH] = str(size)
-            else:
+            if (size := body.size) is None:
                 self.chunked = True
+            elif "chunked" not in self.headers.get(hdrs.TRANSFER_ENCODING, "").lower():
+                # A Transfer-Encoding: chunked header written by the caller
+                # frames the body; a Content-Length beside it is forbidden.
+                self.headers[hdrs.CONTENT_LENGTH] = str(size)
 
         # copy payload headers
         assert body.headers
@@ -1441,10 +1443,7 @@ class ClientRequest(ClientRequestBase):
         # chunked/compress flag left on a request that got no Transfer-Encoding
         # header (a body-less GET, a body cleared by update_body(None)), must
         # not put chunk framing or a compressor trailer behind the head.
-        chunked = (
-            self.chunked
-            and "chunked" in self.headers.get(hdrs.TRANSFER_ENCODING, "").lower()
-        )
+        chunked = "chunked" in self.headers.get(hdrs.TRANSFER_ENCODING, "").lower()
         if self.compress and (chunked or hdrs.CONTENT_LENGTH in self.headers):
             writer.enable_compression(self.compress)
 
